@@ -1,6 +1,6 @@
 (** C17 — proofs. *)
 From Coq Require Import List NArith ZArith Lia Bool.
-From C33 Require Import Lib.Harness Lib.Bytes C16.Proto C16.Model C16.Spec C16.Proofs.
+From C33 Require Import Lib.Harness Lib.Bytes C16.Proto C16.Model C16.Spec C16.Proofs C16.ProofsFrom.
 From C33 Require Import C17.Model C17.Spec.
 Import ListNotations.
 Open Scope list_scope.
@@ -730,4 +730,19 @@ Proof.
   apply unsig_fields in El. destruct El as (_&_&_&_&_&_&_&Eh&_&_). rewrite Eh.
   destruct G as [|g0 G']; [contradiction|]. cbn [hd].
   destruct CG as (_ & Fa & _). rewrite Forall_forall in Fa. apply Fa. exact Hg.
+Qed.
+
+(** * The members' sender gate (chain33 909acb0) *)
+(** every group that Transactions.CheckSign accepts is accepted by the part of
+    it the theorems above speak about, and every member has a sender address
+    derived by an address driver *)
+Lemma group_check_sign_tx_weaken adrv ds verify L h :
+  group_check_sign_tx adrv ds verify L h = true ->
+  group_check_sign ds verify L h = true /\
+  Forall (fun t => usable adrv (sig_ty t) (sig_pub t) = true) L.
+Proof.
+  unfold group_check_sign_tx, group_check_sign. intro C.
+  rewrite forallb_forall in C. split.
+  - apply forallb_forall. intros t Ht. exact (proj2 (check_sign_tx_true _ _ _ _ _ (C t Ht))).
+  - apply Forall_forall. intros t Ht. exact (proj1 (check_sign_tx_true _ _ _ _ _ (C t Ht))).
 Qed.
